@@ -26,6 +26,7 @@ CHECKS = {
     "C13": ("c13", {}),
     "C15": ("c15", {}), "C19": ("c19", {}),
     "C07": ("c07", {}), "C09": ("c09", {}), "C17": ("c17", {}),
+    "C04": ("c04", {}),
 }
 
 # specifications beyond the listed properties (not in MANIFEST.checks; evidence under extras/evidence)
